@@ -169,7 +169,22 @@ def c18_extra(pid, tier, seed):
         import blk
         bviol, bcov = blk.run(pid, tier, seed)
         cov.update(bcov)
-        return viol + bviol, cov
+        # the transcription of Notify.v: the channel and atomic operations of Wait / Set / Close, read off the source
+        ps = os.path.join(kv.HARNESS, 'bin', 'protoscan')
+        kv.sh(['go', 'build', '-o', ps, './cmd/protoscan'], cwd=kv.HARNESS, env=kv.GOENV, timeout=600)
+        r = subprocess.run([ps, 'chans', os.path.join(kv.REPO, 'pkg', 'notify', 'notify.go'), 'Offset'],
+                           stdout=subprocess.PIPE, stderr=subprocess.PIPE, text=True, timeout=120)
+        want = [l.rstrip('\n') for l in open(os.path.join(kv.VERIF, 'lib', 'notify_protocol.txt')) if l.strip() and not l.startswith('#')]
+        got = [l for l in r.stdout.split('\n') if l.strip()]
+        cov['notify']['methods_compared_with_the_transcription_of_Notify'] = len(got)
+        pviol = []
+        if r.returncode != 0 or got != want:
+            diff = [g for g in got if g not in want] + ['(missing) ' + w for w in want if w not in got]
+            pviol.append(('corr', '# correspondence corr:C18/notify-protocol no longer checks: the channel and atomic operations of Wait / Set / Close in '
+                                  '/repo/pkg/notify/notify.go are not those coq/Notify.v was transcribed from (theorems C18_invariant / '
+                                  'C18_no_lost_wakeup ...); the schedules of this check found no state the model excludes\n# differing methods:\n# %s\n'
+                          % '\n# '.join(diff[:6] or [r.stderr[-400:]])))
+        return viol + bviol + pviol, cov
     finally:
         if not os.environ.get('KV_KEEP'):
             shutil.rmtree(d, ignore_errors=True)
